@@ -58,12 +58,12 @@ let eval old toks =
   | ["div_d"; a; b; d] | ["div_eq_d"; a; b; d] -> outr (rdpe_div_d (rd a b) (fl d))
   | ["add"; a; b; c; d] ->
       let x = rd a b and y = rd c d in
-      if old && rdpe_add_old_out_of_model x y then "OOM" else outr (rdpe_add x y)
-  | ["add_eq"; a; b; c; d] -> outr (rdpe_add_eq (rd a b) (rd c d))
-  | ["sub"; a; b; c; d] -> outr (rdpe_sub (rd a b) (rd c d))
-  | ["sub_eq"; a; b; c; d] -> outr (rdpe_sub_eq (rd a b) (rd c d))
+      if old && rdpe_add_old_out_of_model x y then "OOM" else outr ((pick rdpe_add rdpe_add_old) x y)
+  | ["add_eq"; a; b; c; d] -> outr ((pick rdpe_add_eq rdpe_add_eq_old) (rd a b) (rd c d))
+  | ["sub"; a; b; c; d] -> outr ((pick rdpe_sub rdpe_sub_old) (rd a b) (rd c d))
+  | ["sub_eq"; a; b; c; d] -> outr ((pick rdpe_sub_eq rdpe_sub_old) (rd a b) (rd c d))
   | ["pow_si"; a; b; i] | ["pow_eq_si"; a; b; i] -> outr ((pick rdpe_pow_si rdpe_pow_si_old) (rd a b) (z_of_dec i))
-  | ["cmp"; a; b; c; d] -> string_of_z (rdpe_cmp (rd a b) (rd c d))
+  | ["cmp"; a; b; c; d] -> string_of_z ((pick rdpe_cmp rdpe_cmp_old) (rd a b) (rd c d))
   | ["sgn"; a; b] -> string_of_z (rdpe_sgn (rd a b))
   | ["eq_zero"; a; b] -> outb (rdpe_eq_zero (rd a b))
   | ["eq"; a; b; c; d] -> outb (rdpe_eq (rd a b) (rd c d))
@@ -88,7 +88,7 @@ let eval old toks =
   | ["cdiv_d"; a; b; c; d; x] -> outc (cdpe_div_d (cd a b c d) (fl x))
   | ["cpow_si"; a; b; c; d; i] -> outc ((pick cdpe_pow_si cdpe_pow_si_old) (cd a b c d) (z_of_dec i))
   | ["cset_d"; x; y] -> outc (cdpe_set_d (fl x) (fl y))
-  | ["cget_d"; a; b; c; d] ->
+  | ["cget_d"; a; b; c; d] | ["cget_x"; a; b; c; d] ->
       let (x, y) = (pick cdpe_get_d cdpe_get_d_old) (cd a b c d) in hx x ^ " " ^ hx y
   | _ -> "ERR"
 
